@@ -244,7 +244,9 @@ def run(tier, seed):
         mods = collections.OrderedDict()
         for c in cases:
             if not is_cross(c) and executed(c):
-                mods.setdefault(c["kind"] + ("" if c["rt"] in L.BASE_RT else "_w") + ("_lg" if c["lg"] else ""), []).append(c)
+                # typed numeric layer: separate modules (narrow integer types / 32-64-bit types and float) so that no module grows
+                wkey = "" if c["rt"] in L.BASE_RT else ("_wn" if L.is_int(c["rt"]) and L.INTINFO[c["rt"]][1] < 32 else "_ww")
+                mods.setdefault(c["kind"] + wkey + ("_lg" if c["lg"] else ""), []).append(c)
         jobs = submit(ex, mods)
         cpp_src, cpp_map = L.render_cpp(cpp_cases)
         cpp_jobs = []
